@@ -162,10 +162,10 @@ Proof.
   induction ops as [|o ops IH]; intros k h hold l Hr HK H; cbn [exec] in H.
   { inversion H; reflexivity. }
   inversion Hr as [|? ? Hrid Hr']; subst.
-  destruct o as [rid fwd steps|rid|rid kind st]; cbn [op_rid] in Hrid.
+  destruct o as [rid fwd steps rr rf|rid|rid kind st]; cbn [op_rid] in Hrid.
   - (* HStart *)
     unfold is_held in H. destruct (h_hold h rid) as [b0|] eqn:Hh; [discriminate|].
-    set (ch := choose k (HStart rid fwd steps)) in *.
+    set (ch := choose k (HStart rid fwd steps rr rf)) in *.
     destruct (simulate 40 DEAD rm 0 fwd steps ch) as [m|] eqn:Sim; [|discriminate].
     destruct (negb (Nat.eqb (m_used m) (length ch))); [discriminate|].
     destruct (run_ops (reset (h_model h) rid) (tag rid (m_ops m))) as [s'|] eqn:Run; [|discriminate].
@@ -188,14 +188,17 @@ Proof.
       assert (HK' : K h' (upd hold rid (Some (Z.of_nat (last ch O))))).
       { apply (K_update h hold rid s' (Some (last ch O))); assumption. }
       cbn [vbool VT Z.eqb Pos.eqb]. rewrite (last_map_VZ ch Hne).
-      rewrite (counts_clause s'). rewrite (head_ok h' _ s' HK' eq_refl). rewrite St. cbn [andb Z.eqb].
+      rewrite (counts_clause s'). rewrite (head_ok h' _ s' HK' eq_refl). cbn [andb Z.eqb].
       eapply IH; eassumption.
     + destruct End as [_ Hhd].
       assert (HK' : K h' (upd hold rid None)).
       { apply (K_update h hold rid s' None); assumption. }
       cbn [vbool VF Z.eqb].
       rewrite (counts_clause s'). rewrite (head_ok h' _ s' HK' eq_refl). cbn [andb].
-      destruct (m_status m =? 0) eqn:Z0; [apply Z.eqb_eq in Z0; contradiction|]. cbn [negb andb].
+      destruct (final_status rr (m_status m) =? 0) eqn:Z0.
+      { apply Z.eqb_eq in Z0. exfalso. revert Z0. unfold final_status.
+        destruct (rr =? 0); [discriminate|]. destruct (rr =? 2); [discriminate|exact St]. }
+      cbn [negb andb].
       eapply IH; eassumption.
   - (* HRelease *)
     unfold is_held in H. destruct (h_hold h rid) as [b0|] eqn:Hh; cbn [negb] in H.
@@ -270,7 +273,7 @@ Qed.
 (* ---- through the wire functions ---- *)
 Lemma decode_op_rid v o : decode_op v = Some o -> (op_rid o < NR)%nat.
 Proof.
-  unfold decode_op. intro H.
+  unfold decode_op, decode_start. intro H.
   repeat match type of H with
          | context [match ?x with _ => _ end] => destruct x eqn:?; try discriminate
          end;
